@@ -6,7 +6,7 @@ import copy
 
 from ECAgent.Collectors import Collector
 
-from .common import model_class, SID, Model, Rec, RefSched, SystemNotFoundError, gen_flavour, gen_prio, rec_class
+from .common import ambient_warnings, model_class, SID, Model, Rec, RefSched, SystemNotFoundError, gen_flavour, gen_prio, rec_class
 
 PROPERTY = "C01"
 QUICK_RUNS = 24000
@@ -97,6 +97,7 @@ class World:
 
 
 def execute(sc, ctx):
+    ambient_warnings(sc, ctx)
     Rec_ = rec_class(sc, ctx)       # noqa: N806
     w = World(ctx)
 
